@@ -76,9 +76,10 @@ PROPS = {
     "C12": P("plans = sequences of 5-80 store operations (set/get tokens, set/get/clear login state, remove, sweep, clock advance) over 1-4 session ids, each routed to the memory store or to one of "
              "two Redis store instances sharing one miniredis; after every operation the return value is compared with a plain-map model and the complete ground-truth content of each store is "
              "compared with the model (tokens, login state, creation time, no foreign ids); a third of the plans inject Redis command failures (before/after effect) and crashes between the "
-             "commands of one store method, judged with the narrow prefix-of-writes relaxation; non-trivial = a session was created and read; distinct = operation/result trace",
-             {"runs": 12000, "budget_s": 30}, {"runs": 1200000, "budget_s": 900},
-             must={"all": ["overwrite-with-fewer-members", "clear-on-live-session", "remove-live-session", "same-id-on-both-redis-instances", "methods-interrupted-by-fault", "redis-cmd-err-before", "redis-cmd-err-after", "crash-between-redis-commands"]}),
+             "commands of one store method, judged with the narrow prefix-of-writes relaxation; every fourth plan is a concurrent history on the memory store (2-4 client tasks x 3-6 operations on 1-2 ids) in the "
+             "instrumented build (pre-emption at every statement and inside critical sections), invoke/return stamped with the global event sequence number, values unique, checked with porcupine; non-trivial = a session was created and read; distinct = operation/result trace",
+             {"runs": 12000, "budget_s": 30}, {"runs": 1200000, "budget_s": 900}, instr=True,
+             must={"all": ["linearizability-histories", "histories-with-overlapping-writers-on-one-id", "overwrite-with-fewer-members", "clear-on-live-session", "remove-live-session", "same-id-on-both-redis-instances", "methods-interrupted-by-fault", "redis-cmd-err-before", "redis-cmd-err-after", "crash-between-redis-commands"]}),
     "C10": P("plans = (absolute, idle) pairs from {0,1 s,5 s,1 min,10 min,1 h,1 d,30 d}^2; store level: histories of 5-60 operations on the memory store and two Redis store instances with clock advances "
              "placed on either side of each limit (limit-2 s, limit+2 s, fractions, multiples); system level: a browser logs in at a replica built through the start-up wiring with long-lived tokens, the clock "
              "advances and a request probes the session (plus crash-restart with Redis); the oracle allows one second of granularity; non-trivial = a session was read inside or past its limits; "
